@@ -1445,12 +1445,13 @@ func (d *Data) storeAndUpdate(ctx *datastore.VersionedCtx, keyStr string, newDat
 	mdb, found := d.getMemDBbyVersion(ctx.VersionID())
 	if found {
 		mdb.mu.Lock()
-		mdb.data[bodyid] = newData
 
-		// cache updated field and field timestamps
-		for field := range origData {
+		// cache updated field and field timestamps.  Count down the fields of the annotation
+		// being replaced (origData has already lost the fields that were nulled).
+		for field := range mdb.data[bodyid] {
 			mdb.fields[field]--
 		}
+		mdb.data[bodyid] = newData
 		for field := range newData {
 			mdb.fields[field]++
 			if strings.HasSuffix(field, "_time") {
